@@ -29,6 +29,54 @@ CHECKS = {
         technique="property-based testing: reference-model comparison over an instruction graph",
         design="DESIGN.md section 2 C20",
     ),
+    "C01": dict(
+        text="Generated-input search: semantic generator (typed mini-AST lowered with random placement choices) x nine detectors; a reference AVM interpreter with lazy valuation search looks for an approved transaction carrying the detector's dangerous value; a witness obliges the detector to report >= 1 path. Exploration: holds on everything generated; root causes already known are excluded by construction and replayed as KNOWN-FINDING.",
+        note='Trusted: vf/ravm.py (reference AVM interpreter for the modelled fragment, self-tested at setup), vf/rcfg.py, generator-side condition annotations; witnesses are well-formed transactions only; the valuation search is capped by run count (a cap can hide a violation, never invent one).',
+        technique="property-based testing: reference-interpreter witnesses (existential oracle) vs detector verdict",
+        design="DESIGN.md section 2 C01",
+    ),
+    "C02": dict(
+        text="Generated-input search; every reported path of every detector is validated by an independent path checker (explicit call stack over the reference CFG, termination block, no revisit per activation, dangerous value not excluded at any block by the public contexts, renderings denote the block sequence). Exploration.",
+        note="Trusted: vf/rcfg.py; the exclusion predicates are re-implemented from the detector documentation and evaluated on tealer's public context objects.",
+        technique="property-based testing: validity predicate over every reported path",
+        design="DESIGN.md section 2 C02",
+    ),
+    "C03": dict(
+        text="Generated-input search over direct-check programs; the literal-reading oracle decides whether any accepting walk admits the dangerous value; if none, the detector must report nothing. Protected and unprotected programs are both produced and counted. Exploration.",
+        note="Trusted: vf/rlit.py (literal-reading oracle: per-value restricted graph + interprocedural reachability with matched calls) fed by the generator's condition annotations; precision is only asserted on the direct-check fragment.",
+        technique="property-based testing: reference model (literal reading) implies empty report",
+        design="DESIGN.md section 2 C03",
+    ),
+    "C06": dict(
+        text="Generated-input search; soundness by reference-interpreter executions (size/index of every accepted execution must be listed at every block of its trace), exactness on the direct-check fragment by two-sided comparison with the literal-reading oracle (context-sensitive lower bound, context-insensitive upper bound). Exploration.",
+        note="Trusted: vf/ravm.py (reference AVM interpreter for the modelled fragment, self-tested at setup), vf/rcfg.py, generator-side condition annotations; witnesses are well-formed transactions only; the valuation search is capped by run count (a cap can hide a violation, never invent one). Trusted: vf/rlit.py (literal-reading oracle: per-value restricted graph + interprocedural reachability with matched calls) fed by the generator's condition annotations; precision is only asserted on the direct-check fragment.",
+        technique="property-based testing: reference interpreter (soundness) + reference model two-sided bounds (exactness)",
+        design="DESIGN.md section 2 C06",
+    ),
+    "C07": dict(
+        text="Generated-input search; reference-interpreter executions whose governed transaction can be pay / axfer / appl+Update / appl+Delete must find that kind in the set of every block on the trace. Exploration; one known finding (OnCompletion/ApplicationID checks read as 'is an application call') excluded by construction.",
+        note='Trusted: vf/ravm.py (reference AVM interpreter for the modelled fragment, self-tested at setup), vf/rcfg.py, generator-side condition annotations; witnesses are well-formed transactions only; the valuation search is capped by run count (a cap can hide a violation, never invent one).',
+        technique="property-based testing: reference-interpreter witnesses vs per-block sets",
+        design="DESIGN.md section 2 C07",
+    ),
+    "C08": dict(
+        text="Generated-input search; soundness by reference-interpreter executions (every approved non-zero address must be admitted by the block's information), converse on the direct-check fragment by the literal-reading oracle (no 'any address' where every accepting path pins the field). Exploration.",
+        note="Trusted: vf/ravm.py (reference AVM interpreter for the modelled fragment, self-tested at setup), vf/rcfg.py, generator-side condition annotations; witnesses are well-formed transactions only; the valuation search is capped by run count (a cap can hide a violation, never invent one). Trusted: vf/rlit.py (literal-reading oracle: per-value restricted graph + interprocedural reachability with matched calls) fed by the generator's condition annotations; precision is only asserted on the direct-check fragment.",
+        technique="property-based testing: reference interpreter + reference model",
+        design="DESIGN.md section 2 C08",
+    ),
+    "C09": dict(
+        text="Generated-input search for soundness (approved fee <= reported bound) and for the structural clause (no bound <= 272000 where an accepting path admits 2^64-1), plus exhaustive enumeration of the finite single-direct-check family (forms of Fee<=c, Fee<c, Fee==c x mirrored x negated x consumer x 12 constants) for exact bounds. Exploration + exhaustive finite family.",
+        note="Trusted: vf/ravm.py (reference AVM interpreter for the modelled fragment, self-tested at setup), vf/rcfg.py, generator-side condition annotations; witnesses are well-formed transactions only; the valuation search is capped by run count (a cap can hide a violation, never invent one). Trusted: vf/rlit.py (literal-reading oracle: per-value restricted graph + interprocedural reachability with matched calls) fed by the generator's condition annotations; precision is only asserted on the direct-check fragment.",
+        technique="property-based testing: reference interpreter + exhaustive enumeration of a finite family",
+        design="DESIGN.md section 2 C09",
+    ),
+    "C17": dict(
+        text="Generated-input search; every generated contract is run through tealer's command line in-process in seven modes (detect text/JSON, five printers); any exception, non-zero exit, 'Error:' line, unparseable JSON or missing/empty output file is a violation. Exploration.",
+        note="Trusted: generators emit assembler-valid programs whose subroutine bodies are entered only through callsub; the CLI is driven through tealer.__main__.main with patched argv (a subprocess is not used in the quick tier).",
+        technique="property-based testing: robustness oracle (completes without internal error) over generated programs x CLI modes",
+        design="DESIGN.md section 2 C17",
+    ),
 }
 
 NOT_BUILT = "check not built yet in this session (work in progress; see DESIGN.md section 2 for the planned oracle)"
